@@ -254,19 +254,19 @@ def cases(spec, ctx):
     srng = __import__("random").Random(f"C04-scale:{ctx.seed}:{i}")
     for k in range(sc["NR"] // (25 * n) + 1):
         depth = srng.choice([1, 1, 2])
-        root = _rand_genome(srng, srng.choice([600, 1200, 2000]))
+        root = _rand_genome(srng, srng.choice([1200, 2000, 4000]))
         levels, m = [], len(root)
         for _d in range(depth):
             b = ()
             while len(b) < 12:
-                b = _rand_placement(srng, m, kmax=srng.choice([24, 40, 60]))
+                b = _rand_placement(srng, m, kmax=srng.choice([24, 40, 60, 110, 160]))
             levels.append([[list(x) for x in b], srng.choice("+-")])
             m = sum(e - s0 for s0, e in b)
         lens = HM.Hier(root, levels).lengths
         xs = []
         for _x in range(4):
             d = depth if srng.random() < 0.7 else srng.randint(0, depth)
-            nbk = srng.choice([2, 17, 30, 60])
+            nbk = srng.choice([2, 17, 30, 60, 140])
             bl = G.rand_layout(srng, lens[d], nbk, overlap=srng.random() < 0.15, allow_empty_blocks=srng.random() < 0.2)
             xs.append([d, [list(x) for x in bl], srng.choice("+-")])
         yield {"kind": "rand", "root": root, "levels": levels, "types": [f"t{j}" for j in range(depth + 1)], "mode": srng.choice(modes), "xs": xs, "scale": True}
